@@ -7,11 +7,14 @@ THEOREMS = ['FlexVerif.interleave_independent', 'FlexVerif.no_mutable_globals', 
 HARNESS = os.path.join(common.VERIF, 'harness')
 
 
-def build(flex, src, work, name, rs, seed, extra_opts=(), sanitize='address,undefined', topt=('-Cem',)):
+def build(flex, src, work, name, rs, seed, extra_opts=(), sanitize='address,undefined', topt=('-Cem',), backend='r'):
     lex = rs.to_lex(random.Random(seed), action=lambda i: 'return %d;' % i, epilogue='#include "fvmulti.c"\n',
-                    extra_options=['reentrant', 'noyywrap'] + list(extra_opts))
+                    extra_options=(['reentrant'] if backend == 'r' else ['emit="c99"']) + ['noyywrap'] + list(extra_opts))
     # the default rule's ECHO would write the unmatched bytes to stdout
-    lex = '%top{\n#define yyecho() do {} while (0)\n}\n' + lex
+    if backend == 'r':
+        lex = '%top{\n#define yyecho() do {} while (0)\n}\n' + lex
+    else:
+        lex = '%top{\n#define FVM_C99 1\n}\n' + lex
     lf = os.path.join(work, name + '.l'); cf = os.path.join(work, name + '.c'); exe = os.path.join(work, name + '.exe')
     open(lf, 'w', encoding='latin1').write(lex)
     rc, so, se = flexrun.run_flex(flex, lf, cf, list(topt) + ['-8' if rs.csize == 256 else '-7'], timeout=10)
@@ -55,14 +58,15 @@ def _job(job):
     rs = rules.gen_ruleset(rng, p_trail=0.1, p_bol=0.3)
     topt = rng.choice([['-Cem'], ['-Cf'], ['-CF'], ['-C'], ['-Ce']])
     opts = rng.choice([[], ['yylineno'], ['array'], ['stack']])
-    res = {'idx': idx, 'problems': [], 'runs': 0, 'topt': topt, 'opts': opts}
-    exe, lex, err = build(flex, src, work, 'c12_%d' % idx, rs, seed, opts, topt=topt)
+    backend = rng.choice(['r', 'r', 'c99'])
+    res = {'idx': idx, 'problems': [], 'runs': 0, 'topt': topt, 'opts': opts, 'backend': backend}
+    exe, lex, err = build(flex, src, work, 'c12_%d' % idx, rs, seed, opts, topt=topt, backend=backend)
     res['lex'] = lex
     if not exe:
         res['status'] = 'nobuild'
         res['detail'] = err[-300:]
         return res
-    texe, _, terr = build(flex, src, work, 'c12t_%d' % idx, rs, seed, opts, sanitize='thread', topt=topt)
+    texe, _, terr = build(flex, src, work, 'c12t_%d' % idx, rs, seed, opts, sanitize='thread', topt=topt, backend=backend)
     k = rng.randrange(2, 7)
     inputs = [rtgen.gen_input(rng, rs, maxlen=40) for _ in range(k)]
     # solo reference traces
@@ -116,10 +120,12 @@ def regen_footprint(flex, src, work):
     objs = {}
     for name, extra, fopts in [('reentrant', '', []), ('reentrant-array-stack-lineno', ' array stack yylineno yymore reject', []),
                                ('reentrant-full', '', ['-Cf']), ('reentrant-fast', '', ['-CF']),
-                               ('reentrant-bison', ' bison-bridge', [])]:
+                               ('reentrant-bison', ' bison-bridge', []),
+                               ('c99', ' emit="c99"', []), ('c99-array-stack-lineno', ' emit="c99" array stack yylineno yymore reject', []),
+                               ('c99-full', ' emit="c99"', ['-Cf'])]:
         lf = os.path.join(work, 'fp_%s.l' % name)
         pro = '%{\ntypedef int YYSTYPE;\n%}\n' if 'bison' in name else ''
-        open(lf, 'w').write(pro + spec % extra)
+        open(lf, 'w').write(pro + (spec % extra).replace('reentrant noyywrap emit=', 'noyywrap emit='))
         cf = lf[:-2] + '.c'
         rc, so, se = flexrun.run_flex(flex, lf, cf, fopts)
         if rc != 0:
@@ -157,11 +163,27 @@ def regen_footprint(flex, src, work):
         open(lf, 'w').write('%%option noyywrap prefix="%s"\n%%%%\na+ return 1;\n.|\\n ;\n%%%%\n' % pref)
         cf = lf[:-2] + '.c'
         rc, so, se = flexrun.run_flex(flex, lf, cf, [])
-        subprocess.run(['gcc', '-w', '-c', '-I', src, cf, '-o', cf + '.o'])
+        pc = subprocess.run(['gcc', '-w', '-c', '-I', src, cf, '-o', cf + '.o'], stdout=subprocess.PIPE, stderr=subprocess.STDOUT, text=True)
+        if rc != 0 or pc.returncode != 0:
+            clashes.append('<scanner with prefix %s does not build>' % pref)
         nm = subprocess.run(['nm', cf + '.o'], stdout=subprocess.PIPE, text=True).stdout
         ext[pref] = {l.split()[-1] for l in nm.split('\n') if len(l.split()) >= 2 and l.split()[-2] in 'TDBRCG'}
         objs[pref] = cf + '.o'
-    clashes = sorted(ext['aa'] & ext['bb'])
+    clashes += sorted(ext['aa'] & ext['bb'])
+    # the same for two c99 scanners
+    for pref in ('cc', 'dd'):
+        lf = os.path.join(work, 'fp_p%s.l' % pref)
+        open(lf, 'w').write('%%option noyywrap emit="c99" prefix="%s"\n%%%%\na+ return 1;\n.|\\n ;\n%%%%\n' % pref)
+        cf = lf[:-2] + '.c'
+        rc, so, se = flexrun.run_flex(flex, lf, cf, [])
+        pc = subprocess.run(['gcc', '-w', '-c', '-I', src, cf, '-o', cf + '.o'], stdout=subprocess.PIPE, stderr=subprocess.STDOUT, text=True)
+        if rc != 0 or pc.returncode != 0:
+            clashes.append('c99:<scanner with prefix %s does not build>' % pref)
+            ext[pref] = set()
+            continue
+        nm = subprocess.run(['nm', cf + '.o'], stdout=subprocess.PIPE, text=True).stdout
+        ext[pref] = {l.split()[-1] for l in nm.split('\n') if len(l.split()) >= 2 and l.split()[-2] in 'TDBRCG'}
+    clashes += ['c99:' + x for x in sorted(ext['cc'] & ext['dd'])]
     # and they must link into one program
     mainc = os.path.join(work, 'fp_main.c')
     open(mainc, 'w').write('int aalex(void); int bblex(void); int main(void) { return 0 * (aalex() + bblex()); }\n')
